@@ -20,3 +20,29 @@ pub assume_specification<const N: usize> [BUint::<N>::abs_diff] (a: BUint<N>, b:
 } // verus!
 #[allow(unused_imports)] use vstd::std_specs::ops::*;
 #[allow(unused_imports)] use vstd::std_specs::cmp::*;
+
+verus! {
+/// Rbconst outlines (associated constants of foreign types are unsupported). Trusted contracts.
+#[verifier::external_body]
+fn ol_bint_one<const N: usize>() -> (r: BInt<N>)
+    ensures N >= 1 ==> iv(r) == 1
+{ BInt::<N>::ONE }
+#[verifier::external_body]
+fn ol_bint_zero<const N: usize>() -> (r: BInt<N>)
+    ensures iv(r) == 0
+{ BInt::<N>::ZERO }
+#[verifier::external_body]
+fn ol_buint_one<const N: usize>() -> (r: BUint<N>)
+    ensures N >= 1 ==> uv(r) == 1
+{ BUint::<N>::ONE }
+
+/// extended algorithm of num-integer on non-negative i64 operands (T-dep num-integer): Bezout identity and the result
+/// divides both operands. Negative operands are outside this contract. (Regcd2)
+#[verifier::external_body]
+fn ol_egcd_ref(a: i64, b: i64) -> (e: num_integer::ExtendedGcd<i64>)
+    requires a >= 0, b >= 0,
+    ensures
+        e.gcd >= 0, e.x * a + e.y * b == e.gcd,
+        (a > 0 || b > 0) ==> e.gcd >= 1 && a % e.gcd == 0 && b % e.gcd == 0,
+{ Integer::extended_gcd(&a, &b) }
+} // verus!
